@@ -53,6 +53,8 @@ type Engine struct {
 
 	Native      *NativeHelper
 	RefRejected map[string]string
+	Cfg         map[string]int
+	Tactic      string // optional z3 tactic for check-sat-using (e.g. QF_BV pipelines)
 }
 
 func (e *Engine) methodSet(t types.Type) *types.MethodSet {
@@ -187,6 +189,9 @@ func (ex *Exec) branch(cond *Term, why string) bool {
 	if len(ex.decisions) >= ex.eng.MaxDecisions() {
 		panic(pathEnd{kind: endUnwind, msg: "decision bound exceeded"})
 	}
+	if traceDec {
+		fmt.Fprintf(os.Stderr, "decision %d: %s @ %s\n", len(ex.decisions), why, ex.targetStack(3))
+	}
 	taken := ex.evalBool(cond)
 	other := ex.tt.Not(cond)
 	if !taken {
@@ -216,6 +221,8 @@ func (ex *Exec) branch(cond *Term, why string) bool {
 
 func (e *Engine) MaxDecisions() int { return 4096 }
 
+var traceDec = os.Getenv("GOSX_TRACE_DEC") != ""
+
 // concretize picks a concrete value for t (a 64-bit BV unless noted), forking over all feasible values (at most max).
 func (ex *Exec) concretize(t *Term, max int, why string) uint64 {
 	if t.IsConst() {
@@ -227,6 +234,9 @@ func (ex *Exec) concretize(t *Term, max int, why string) uint64 {
 		ex.decisions = append(ex.decisions, d)
 		ex.addPC(tt.Eq(t, tt.BV(d, t.W)))
 		return d
+	}
+	if traceDec {
+		fmt.Fprintf(os.Stderr, "concretize %d: %s @ %s\n", len(ex.decisions), why, ex.targetStack(3))
 	}
 	v0, _ := Eval(t, ex.model)
 	found := []uint64{v0}
@@ -491,7 +501,8 @@ func (e *Engine) ExploreWith(task func(ex *Exec), solverKind string, workers int
 		go func() {
 			defer wg.Done()
 			solver := e.pool().get(solverKind)
-			defer func() { e.pool().put(solver) }()
+			solver.Tactic = e.Tactic
+			defer func() { solver.Tactic = ""; e.pool().put(solver) }()
 			for {
 				mu.Lock()
 				for len(queue) == 0 && active > 0 {
